@@ -8,6 +8,7 @@ package c13
 import (
 	"fmt"
 	"reflect"
+	"regexp"
 	"sort"
 	"strconv"
 	"strings"
@@ -29,6 +30,40 @@ func nameIdx(n string) int {
 	return -1
 }
 
+// vpool / tpool are the names of the value tables and of the type tables of the model (index = slot).
+// "m" is only ever bound to a module (newmod, Prog.Mod) and only in the shared scope; "int64" is a type
+// name that Go itself (and anko's table of built-in type names) gives a meaning when no scope binds it.
+var (
+	vpool = []string{"a", "b", "c", "m"}
+	tpool = []string{"a", "b", "c", "int64"}
+)
+
+const (
+	modName    = "m"
+	selfName   = "sm" // the name under which the parent binds the shared scope itself (Prog.SelfMod)
+	idSelf     = 7    // module id of the shared scope
+	idMod0     = 8    // module id of the module initially bound to "m" (Prog.Mod)
+	builtinI64 = "int64"
+)
+
+func vIdx(n string) int {
+	for i, p := range vpool {
+		if p == n {
+			return i
+		}
+	}
+	return -1
+}
+
+func tIdx(n string) int {
+	for i, p := range tpool {
+		if p == n {
+			return i
+		}
+	}
+	return -1
+}
+
 // Op is one environment operation of a thread.
 //
 //	define set get delete delnear   — value table (delnear = DeleteGlobal)
@@ -36,6 +71,13 @@ func nameIdx(n string) int {
 //	copy deepcopy                    — Copy / DeepCopy, then GetValueSymbols+Get and GetTypeSymbols+Type on the copy's own scope
 //	syms tsyms                       — GetValueSymbols / GetTypeSymbols
 //	string                           — String
+//	newmod                           — NewModule("m") on the shared scope (V = id of the module made)
+//	mget mtype                       — Get / Type of a pool name THROUGH the module that this thread's latest
+//	                                   get(m) / cget(m) returned (no env call, result "nomod", when it returned none)
+//	path cpath                       — GetEnvFromPath on the shared scope / on its empty child; N = segments joined by "/"
+//	gdefine gdefinev                 — DefineGlobal / DefineGlobalValue called on the shared scope (c…: on its child):
+//	cgdefine cgdefinev                 they write the root of the chain, which is the parent
+//	gdeftype gdeftypei cgdeftype     — DefineGlobalReflectType / DefineGlobalType on the shared scope (c…: on its child)
 type Op struct {
 	K string `json:"k"`
 	N string `json:"n,omitempty"`
@@ -44,9 +86,9 @@ type Op struct {
 
 func (o Op) String() string {
 	switch o.K {
-	case "define", "set", "deftype", "cset":
+	case "define", "set", "deftype", "cset", "newmod", "gdefine", "gdefinev", "cgdefine", "cgdefinev", "gdeftype", "gdeftypei", "cgdeftype":
 		return fmt.Sprintf("%s(%s,%d)", o.K, o.N, o.V)
-	case "get", "delete", "delnear", "type", "cget", "caddr", "ctype":
+	case "get", "delete", "delnear", "type", "cget", "caddr", "ctype", "mget", "mtype", "path", "cpath":
 		return fmt.Sprintf("%s(%s)", o.K, o.N)
 	}
 	return o.K + "()"
@@ -67,6 +109,23 @@ type Prog struct {
 	Warm []int `json:"warm,omitempty"`
 	// Ext: the shared scope has an external lookup attached (it serves the one name "xe", with value 99)
 	Ext bool `json:"ext,omitempty"`
+	// Mod: the shared scope initially binds "m" to a module made by NewModule (module id 8)
+	Mod bool `json:"mod,omitempty"`
+	// SelfMod: the parent binds "sm" to the shared scope itself (module id 7), so that a path lookup
+	// that starts with "sm" continues in the shared scope's own table
+	SelfMod bool `json:"selfmod,omitempty"`
+	// ForcedPublication: the generator planted newmod(m) in one thread and get(m); mget/mtype in another
+	ForcedPublication bool `json:"forced_publication,omitempty"`
+	// Wide: drawn from the wider operation mix (generator bookkeeping, shown as a class)
+	Wide bool `json:"wide,omitempty"`
+	// EmptyTab: when the shared scope starts with no value bound, its value table has been created and
+	// emptied again (a define and a delete of another name before the threads start) instead of never created
+	EmptyTab bool `json:"empty_tab,omitempty"`
+	// StringReplaced counts the String operations the generator replaced (excludeStringWithModule)
+	StringReplaced int `json:"string_replaced,omitempty"`
+	// GdefMoved / PresenceDemoted count the repairs of keepParentQuiet
+	GdefMoved       int `json:"gdef_moved,omitempty"`
+	PresenceDemoted int `json:"presence_demoted,omitempty"`
 }
 
 // delnearPair reports the names n for which the program has the shape of the DeleteGlobal
@@ -145,7 +204,19 @@ func withName(l []string, n string) []string {
 
 // eget / ceget: Get of the name "xe", which no table ever binds and which the external lookup attached to
 // the shared scope (Prog.Ext) serves with a fixed value: on the shared scope itself, through its child.
-var opKinds = []string{"define", "define", "set", "set", "get", "get", "delete", "delnear", "deftype", "type", "copy", "deepcopy", "syms", "tsyms", "string", "cget", "cset", "caddr", "ctype", "eget", "ceget"}
+var opKinds = []string{"define", "define", "set", "set", "get", "get", "delete", "delnear", "deftype", "type", "copy", "deepcopy", "syms", "tsyms", "string", "cget", "cset", "caddr", "ctype", "eget", "ceget", "setext"}
+
+// newKinds are generator-side kinds added after the sixth round; each expands into one or two operations:
+// modget / modtype = get(m) or cget(m) followed by mget(n) / mtype(n); path = path or cpath with a drawn path;
+// gdef / gdeft = one of the define-global forms for values / types.
+var newKinds = []string{"newmod", "modget", "modtype", "path", "path", "gdef", "gdeft"}
+
+var (
+	vNamesWide = []string{"a", "b", "c", "a", "b", "c", modName}
+	tNamesWide = []string{"a", "b", "c", "a", "b", "c", builtinI64, builtinI64}
+	pathFirst  = []string{selfName, selfName, selfName, selfName, modName, modName, "x", "a"}
+	pathLater  = []string{"a", "b", "c", modName, modName, "x"}
+)
 
 func genSubset(t *rapid.T, label string, pNum int) []string {
 	var out []string
@@ -169,26 +240,71 @@ func genProg(t *rapid.T, withString bool) Prog {
 		p.Warm = []int{rapid.SampledFrom(counts).Draw(t, "warmdel"), rapid.SampledFrom(counts[:8]).Draw(t, "warmsyms"), rapid.SampledFrom(counts[:8]).Draw(t, "warmcopy")}
 	}
 	p.Ext = rapid.Bool().Draw(t, "ext")
+	p.EmptyTab = rapid.IntRange(0, 2).Draw(t, "emptytab") == 1
+	// two flavours of program: 3 of 5 draw from the operations and names of the first five rounds only
+	// (their density is what the earlier sensitivity results rest on), 2 of 5 mix in the operations, names
+	// and initial bindings added after the sixth round at half of all draws
+	wide := rapid.IntRange(0, 4).Draw(t, "flavour")%2 == 1
+	allKinds, vNames, tNames := opKinds, pool, pool
+	if wide {
+		p.Wide = true
+		p.Mod = rapid.IntRange(0, 3).Draw(t, "mod") == 1
+		p.SelfMod = rapid.IntRange(0, 3).Draw(t, "selfmod") != 0
+		allKinds = append(append(append(append([]string{}, opKinds...), newKinds...), newKinds...), newKinds...)
+		vNames, tNames = vNamesWide, tNamesWide
+	}
 	nt := rapid.IntRange(2, 3).Draw(t, "threads")
 	next := 10
 	for i := 0; i < nt; i++ {
 		n := rapid.IntRange(1, 4).Draw(t, "nops")
 		var ops []Op
 		for j := 0; j < n; j++ {
-			k := rapid.SampledFrom(opKinds).Draw(t, "kind")
+			k := rapid.SampledFrom(allKinds).Draw(t, "kind")
 			if k == "string" && !withString {
 				k = "syms"
 			}
 			op := Op{K: k}
 			switch k {
-			case "define", "set", "deftype":
+			case "define", "set", "cset":
 				op.N = rapid.SampledFrom(pool).Draw(t, "name")
 				op.V = next
 				next++
-			case "get", "delete", "delnear", "type", "cget", "caddr", "ctype":
+			case "deftype":
+				op.N = rapid.SampledFrom(tNames).Draw(t, "tname")
+				op.V = next
+				next++
+			case "get", "delete", "delnear", "cget":
+				op.N = rapid.SampledFrom(vNames).Draw(t, "vname")
+			case "caddr":
 				op.N = rapid.SampledFrom(pool).Draw(t, "name")
-			case "cset":
+			case "type", "ctype":
+				op.N = rapid.SampledFrom(tNames).Draw(t, "tname")
+			case "newmod":
+				op.N = modName
+				op.V = next
+				next++
+			case "modget", "modtype":
+				ops = append(ops, Op{K: rapid.SampledFrom([]string{"get", "get", "cget"}).Draw(t, "holder"), N: modName})
+				if k == "modget" {
+					op = Op{K: "mget", N: rapid.SampledFrom(pool).Draw(t, "name")}
+				} else {
+					op = Op{K: "mtype", N: rapid.SampledFrom(tNames).Draw(t, "tname")}
+				}
+			case "path":
+				op.K = rapid.SampledFrom([]string{"path", "cpath"}).Draw(t, "pathfrom")
+				segs := []string{rapid.SampledFrom(pathFirst).Draw(t, "seg0")}
+				for x, more := 0, rapid.IntRange(0, 4).Draw(t, "pathlen"); x < []int{0, 1, 1, 1, 2}[more]; x++ {
+					segs = append(segs, rapid.SampledFrom(pathLater).Draw(t, "seg"))
+				}
+				op.N = strings.Join(segs, "/")
+			case "gdef":
+				op.K = rapid.SampledFrom([]string{"gdefine", "gdefinev", "cgdefine", "cgdefinev"}).Draw(t, "gform")
 				op.N = rapid.SampledFrom(pool).Draw(t, "name")
+				op.V = next
+				next++
+			case "gdeft":
+				op.K = rapid.SampledFrom([]string{"gdeftype", "gdeftypei", "cgdeftype"}).Draw(t, "gtform")
+				op.N = rapid.SampledFrom(tNames).Draw(t, "tname")
 				op.V = next
 				next++
 			}
@@ -209,7 +325,165 @@ func genProg(t *rapid.T, withString bool) Prog {
 			p.Threads[x][k] = Op{K: "delnear", N: n}
 		}
 	}
+	// raise the density of the shape "one thread makes the module m while another fetches m from the scope and
+	// looks a name up through it" (the fetch has to fall after the publication and the lookup before
+	// NewModule has returned: one schedule among many)
+	if wide && rapid.IntRange(0, 3).Draw(t, "force_module_publication") == 0 {
+		ti := rapid.IntRange(0, nt-1).Draw(t, "pub_t0")
+		tj := (ti + 1 + rapid.IntRange(0, nt-2).Draw(t, "pub_t1")) % nt
+		p.Threads[ti][rapid.IntRange(0, len(p.Threads[ti])-1).Draw(t, "pub_pos")] = Op{K: "newmod", N: modName, V: next}
+		next++
+		through := Op{K: "mget", N: rapid.SampledFrom(pool).Draw(t, "pub_name")}
+		if rapid.IntRange(0, 2).Draw(t, "pub_type") == 0 {
+			through = Op{K: "mtype", N: rapid.SampledFrom(tNamesWide).Draw(t, "pub_tname")}
+		}
+		k := rapid.IntRange(0, len(p.Threads[tj])-1).Draw(t, "pub_pos1")
+		th := append([]Op{}, p.Threads[tj][:k]...)
+		th = append(th, Op{K: rapid.SampledFrom([]string{"get", "get", "cget"}).Draw(t, "pub_holder"), N: modName}, through)
+		p.Threads[tj] = append(th, p.Threads[tj][k+1:]...)
+		p.ForcedPublication = true
+	}
+	excludeStringWithModule(&p)
+	keepParentQuiet(t, &p)
 	return p
+}
+
+// The statement quantifies over operations on one shared scope "with a read-only parent". The define-global
+// forms write the parent. An operation that walks from the shared scope to the parent (get, set, delete-nearest,
+// type, ...) consults two scopes one after the other; while BOTH bindings of its name come and go, the statement
+// does not say what it may return. The check therefore only generates a define-global of a name whose
+// presence in the shared scope's own table never changes in the program (no define / delete / delete-nearest
+// of that name, for types no define-type): then every operation on that name depends on one table only.
+// parentWriteConflicts lists the names (prefixed v: / t:) that break this rule.
+func parentWriteConflicts(p Prog) []string {
+	gdef, pres := map[string]bool{}, map[string]bool{}
+	for _, th := range p.Threads {
+		for _, op := range th {
+			switch op.K {
+			case "gdefine", "gdefinev", "cgdefine", "cgdefinev":
+				gdef["v:"+op.N] = true
+			case "gdeftype", "gdeftypei", "cgdeftype":
+				gdef["t:"+op.N] = true
+			case "define", "delete", "delnear":
+				pres["v:"+op.N] = true
+			case "deftype":
+				pres["t:"+op.N] = true
+			}
+		}
+	}
+	var out []string
+	for k := range gdef {
+		if pres[k] {
+			out = append(out, k)
+		}
+	}
+	sort.Strings(out)
+	return out
+}
+
+// keepParentQuiet repairs a generated program by construction: a define-global of a conflicting name moves to a
+// free name; if there is none, the operations that change the presence of the name in the shared scope
+// become operations that do not (define -> set, delete / delete-nearest -> get, define-type -> type). Counted.
+func keepParentQuiet(t *rapid.T, p *Prog) {
+	for _, k := range parentWriteConflicts(*p) {
+		names := pool
+		if k[:2] == "t:" {
+			names = tpool
+		}
+		moved := false
+		start := rapid.IntRange(0, len(names)-1).Draw(t, "quiet_name")
+		for d := 0; d < len(names) && !moved; d++ {
+			cand := names[(start+d)%len(names)]
+			trial := renameGdef(*p, k, cand)
+			free := true
+			for _, c := range parentWriteConflicts(trial) {
+				if c == k[:2]+cand {
+					free = false
+				}
+			}
+			if free {
+				*p = trial
+				p.GdefMoved++
+				moved = true
+			}
+		}
+		if moved {
+			continue
+		}
+		for _, th := range p.Threads {
+			for i, op := range th {
+				if k[:2] == "v:" && op.N == k[2:] {
+					switch op.K {
+					case "define":
+						th[i].K = "set"
+						p.PresenceDemoted++
+					case "delete", "delnear":
+						th[i] = Op{K: "get", N: op.N}
+						p.PresenceDemoted++
+					}
+				}
+				if k[:2] == "t:" && op.N == k[2:] && op.K == "deftype" {
+					th[i] = Op{K: "type", N: op.N}
+					p.PresenceDemoted++
+				}
+			}
+		}
+	}
+}
+
+func renameGdef(p Prog, k, to string) Prog {
+	q := p
+	q.Threads = nil
+	for _, th := range p.Threads {
+		nt := append([]Op{}, th...)
+		for i, op := range nt {
+			switch op.K {
+			case "gdefine", "gdefinev", "cgdefine", "cgdefinev":
+				if k == "v:"+op.N {
+					nt[i].N = to
+				}
+			case "gdeftype", "gdeftypei", "cgdeftype":
+				if k == "t:"+op.N {
+					nt[i].N = to
+				}
+			}
+		}
+		q.Threads = append(q.Threads, nt)
+	}
+	return q
+}
+
+// excludeStringWithModule: String formats every bound value with %#v; for a bound module that prints the
+// fields of the module's struct (not its address), so the text cannot be read back into "m = module <id>",
+// and the formatting reads those fields without the module's lock (a matter between String and writers of
+// the MODULE's tables, which this check does not generate). A program whose shared scope can bind a module
+// gets its String operations replaced by value listings (counted).
+func excludeStringWithModule(p *Prog) {
+	if !canBindModule(*p) {
+		return
+	}
+	for _, th := range p.Threads {
+		for i := range th {
+			if th[i].K == "string" {
+				th[i] = Op{K: "syms"}
+				p.StringReplaced++
+			}
+		}
+	}
+}
+
+func canBindModule(p Prog) bool {
+	if p.Mod {
+		return true
+	}
+	for _, th := range p.Threads {
+		for _, op := range th {
+			if op.K == "newmod" {
+				return true
+			}
+		}
+	}
+	return false
 }
 
 // validProg guards replayed / hand-written cases.
@@ -224,21 +498,54 @@ func validProg(p Prog) error {
 			}
 		}
 	}
+	if c := parentWriteConflicts(p); len(c) > 0 {
+		return fmt.Errorf("define-global of a name whose presence in the shared scope changes: %v", c)
+	}
 	for _, th := range p.Threads {
 		if len(th) > 8 {
 			return fmt.Errorf("thread too long")
 		}
 		for _, op := range th {
 			switch op.K {
-			case "define", "set", "deftype", "cset":
-				if nameIdx(op.N) < 0 || op.V < 7 || op.V >= len(typeTab) {
+			case "define", "set", "cset", "gdefine", "gdefinev", "cgdefine", "cgdefinev":
+				if nameIdx(op.N) < 0 || op.V < 10 || op.V >= len(typeTab) {
 					return fmt.Errorf("bad op %v", op)
 				}
-			case "get", "delete", "delnear", "type", "cget", "caddr", "ctype":
+			case "deftype", "gdeftype", "gdeftypei", "cgdeftype":
+				if tIdx(op.N) < 0 || op.V < 10 || op.V >= len(typeTab) {
+					return fmt.Errorf("bad op %v", op)
+				}
+			case "newmod":
+				if op.N != modName || op.V < 10 || op.V >= len(typeTab) {
+					return fmt.Errorf("bad op %v", op)
+				}
+			case "get", "delete", "delnear", "cget":
+				if vIdx(op.N) < 0 {
+					return fmt.Errorf("bad op %v", op)
+				}
+			case "caddr", "mget":
 				if nameIdx(op.N) < 0 {
 					return fmt.Errorf("bad op %v", op)
 				}
-			case "copy", "deepcopy", "syms", "tsyms", "string", "eget", "ceget":
+			case "type", "ctype", "mtype":
+				if tIdx(op.N) < 0 {
+					return fmt.Errorf("bad op %v", op)
+				}
+			case "path", "cpath":
+				segs := strings.Split(op.N, "/")
+				if len(segs) < 1 || len(segs) > 3 {
+					return fmt.Errorf("bad path %v", op)
+				}
+				for i, sg := range segs {
+					if !(nameIdx(sg) >= 0 || sg == modName || sg == "x" || (i == 0 && sg == selfName)) {
+						return fmt.Errorf("bad path %v", op)
+					}
+				}
+			case "string":
+				if canBindModule(p) {
+					return fmt.Errorf("String with a module in the scope is not generated")
+				}
+			case "copy", "deepcopy", "syms", "tsyms", "eget", "ceget", "setext":
 			default:
 				return fmt.Errorf("unknown op kind %q", op.K)
 			}
@@ -262,12 +569,19 @@ func typeID(t reflect.Type) string {
 	if t != nil && t.Kind() == reflect.Array && t.Elem().Kind() == reflect.Uint8 && t.Len() < len(typeTab) {
 		return strconv.Itoa(t.Len())
 	}
+	if t == reflect.TypeOf(int64(0)) {
+		return builtinI64
+	}
 	return fmt.Sprintf("?%v", t)
 }
 
 func valID(v interface{}) string {
 	if i, ok := v.(int); ok {
 		return strconv.Itoa(i)
+	}
+	if e, ok := v.(*env.Env); ok {
+		// a module: a placeholder that world.resolve turns into the module's id once every thread has finished
+		return fmt.Sprintf("@%p", e)
 	}
 	return fmt.Sprintf("?%T(%v)", v, v)
 }
@@ -277,13 +591,18 @@ func valID(v interface{}) string {
 // state is the model: own tables of the shared scope (c*) and of its parent (p*);
 // 0 = name absent, otherwise the id bound.
 type state struct {
-	cv, ct, pv, pt [3]int
-	ext            bool // the shared scope has the external lookup attached
+	cv, ct, pv, pt [4]int // slots: vpool for the value tables, tpool for the type tables
+	ext            bool   // the shared scope has the external lookup attached
+	sm             bool   // the parent binds "sm" to the shared scope (constant)
 }
 
 func initState(p Prog) state {
 	var s state
 	s.ext = p.Ext
+	s.sm = p.SelfMod
+	if p.Mod {
+		s.cv[vIdx(modName)] = idMod0
+	}
 	for _, n := range p.ChildVals {
 		s.cv[nameIdx(n)] = 1 + nameIdx(n)
 	}
@@ -299,35 +618,103 @@ func initState(p Prog) state {
 	return s
 }
 
-func renderTab(t [3]int) string {
+// renderTab / renderSyms list a table in the order of its name pool, which is also the sorted order
+// in which readTables lists a real scope.
+func renderTab(names []string, t [4]int) string {
 	var parts []string
 	for i, v := range t {
 		if v != 0 {
-			parts = append(parts, pool[i]+"="+strconv.Itoa(v))
+			parts = append(parts, names[i]+"="+strconv.Itoa(v))
 		}
 	}
 	return strings.Join(parts, ",")
 }
 
-func renderSyms(t [3]int) string {
+func renderSyms(names []string, t [4]int) string {
 	var parts []string
 	for i, v := range t {
 		if v != 0 {
-			parts = append(parts, pool[i])
+			parts = append(parts, names[i])
 		}
 	}
 	return strings.Join(parts, ",")
 }
 
 func (s state) String() string {
-	return fmt.Sprintf("shared{values: %s | types: %s} parent{values: %s | types: %s}", renderTab(s.cv), renderTab(s.ct), renderTab(s.pv), renderTab(s.pt))
+	pv := renderTab(vpool, s.pv)
+	if s.sm {
+		if pv != "" {
+			pv += ","
+		}
+		pv += selfName + "=" + strconv.Itoa(idSelf)
+	}
+	return fmt.Sprintf("shared{values: %s | types: %s} parent{values: %s | types: %s}", renderTab(vpool, s.cv), renderTab(tpool, s.ct), pv, renderTab(tpool, s.pt))
 }
 
 // apply runs one operation on the model and returns the new state and the result
 // text an atomic execution must report.
-func apply(s state, op Op) (state, string) {
-	i := nameIdx(op.N)
+//
+// held tells, for mget / mtype, whether the thread's latest get(m) / cget(m) returned a module (a recorded
+// result, known before the search starts).
+func apply(s state, op Op, held bool) (state, string) {
+	i := vIdx(op.N)
 	switch op.K {
+	case "deftype", "type", "ctype", "mtype", "gdeftype", "gdeftypei", "cgdeftype":
+		i = tIdx(op.N)
+	}
+	switch op.K {
+	case "newmod":
+		// NewModule: "a shortcut for calling NewEnv then Define that new Env": one define of a fresh, linked scope
+		s.cv[i] = op.V
+		return s, "ok"
+	case "gdefine", "gdefinev", "cgdefine", "cgdefinev":
+		// define-global from any depth writes the root, here the parent
+		s.pv[i] = op.V
+		return s, "ok"
+	case "gdeftype", "gdeftypei", "cgdeftype":
+		s.pt[i] = op.V
+		return s, "ok"
+	case "mget":
+		// the module's own table is empty (nothing ever defines in it): the nearest binding is the one the
+		// shared scope sees
+		if !held {
+			return s, "nomod"
+		}
+		return apply(s, Op{K: "get", N: op.N}, false)
+	case "mtype":
+		if !held {
+			return s, "nomod"
+		}
+		return apply(s, Op{K: "type", N: op.N}, false)
+	case "path", "cpath":
+		// Only paths with one reading are generated: the first segment is a name that is bound to a module or
+		// not at all ("sm": in the parent; "m": in the shared scope) or never to a module (a b c x); a later
+		// segment is looked up in the own table of the module reached, and only the shared scope's table
+		// can hold a module ("m").
+		segs := strings.Split(op.N, "/")
+		cur := 0
+		switch segs[0] {
+		case selfName:
+			if s.sm {
+				cur = idSelf
+			}
+		case modName:
+			cur = s.cv[vIdx(modName)]
+		}
+		for _, sg := range segs[1:] {
+			if cur == idSelf && sg == modName {
+				cur = s.cv[vIdx(modName)]
+			} else {
+				cur = 0
+			}
+			if cur == 0 {
+				break
+			}
+		}
+		if cur == 0 {
+			return s, "err"
+		}
+		return s, "ok" + strconv.Itoa(cur)
 	case "define":
 		s.cv[i] = op.V
 		return s, "ok"
@@ -349,6 +736,10 @@ func apply(s state, op Op) (state, string) {
 			return s, "unaddressable"
 		}
 		return s, "undefined"
+	case "setext":
+		// SetExternalLookup on the shared scope: from now on the name "xe" is answered from outside
+		s.ext = true
+		return s, "ok"
 	case "eget", "ceget":
 		// answered from outside the tables: the state plays no part (s.ext is set when the lookup is attached)
 		if s.ext {
@@ -383,17 +774,21 @@ func apply(s state, op Op) (state, string) {
 		if s.pt[i] != 0 {
 			return s, "t" + strconv.Itoa(s.pt[i])
 		}
+		if op.N == builtinI64 {
+			// built-in type names last
+			return s, "t" + builtinI64
+		}
 		return s, "err"
 	case "copy", "deepcopy":
 		// DeepCopy copies the scope and then, separately, its parents ("each scope is a consistent
 		// snapshot but not the whole"): the operation's result is the snapshot of the shared scope
-		return s, "copy{" + renderTab(s.cv) + "|" + renderTab(s.ct) + "}"
+		return s, "copy{" + renderTab(vpool, s.cv) + "|" + renderTab(tpool, s.ct) + "}"
 	case "syms":
-		return s, "syms{" + renderSyms(s.cv) + "}"
+		return s, "syms{" + renderSyms(vpool, s.cv) + "}"
 	case "tsyms":
-		return s, "tsyms{" + renderSyms(s.ct) + "}"
+		return s, "tsyms{" + renderSyms(tpool, s.ct) + "}"
 	case "string":
-		return s, "str{" + renderTab(s.cv) + "|" + renderTab(s.ct) + "}"
+		return s, "str{" + renderTab(vpool, s.cv) + "|" + renderTab(tpool, s.ct) + "}"
 	}
 	panic("unknown op " + op.K)
 }
@@ -403,6 +798,50 @@ func apply(s state, op Op) (state, string) {
 type world struct {
 	parent, shared *env.Env
 	child          *env.Env // an empty scope below the shared one (operations c*)
+	mod0           *env.Env // the module initially bound to "m" (Prog.Mod)
+	// per thread (each thread touches only its own element, so the harness adds no synchronisation
+	// between the threads): the module the thread holds, and the modules it made with their ids
+	regs []*env.Env
+	made [][]modRec
+}
+
+type modRec struct {
+	e  *env.Env
+	id int
+}
+
+var rePlaceholder = regexp.MustCompile(`@0x[0-9a-f]+|@%!p\([^)]*\)`)
+
+// resolve replaces the module placeholders of valID by module ids. To be called when no thread runs.
+func (w world) resolve(txt string) string {
+	if !strings.Contains(txt, "@") {
+		return txt
+	}
+	ids := map[string]int{fmt.Sprintf("@%p", w.shared): idSelf}
+	if w.mod0 != nil {
+		ids[fmt.Sprintf("@%p", w.mod0)] = idMod0
+	}
+	for _, l := range w.made {
+		for _, r := range l {
+			ids[fmt.Sprintf("@%p", r.e)] = r.id
+		}
+	}
+	return rePlaceholder.ReplaceAllStringFunc(txt, func(m string) string {
+		if id, ok := ids[m]; ok {
+			return strconv.Itoa(id)
+		}
+		return "?mod"
+	})
+}
+
+func (w world) resolveAll(results [][]string) [][]string {
+	out := make([][]string, len(results))
+	for i, l := range results {
+		for _, r := range l {
+			out[i] = append(out[i], w.resolve(r))
+		}
+	}
+	return out
 }
 
 // build creates the parent and the shared scope (sequentially; no hook installed).
@@ -421,10 +860,22 @@ func build(p Prog) world {
 	for _, n := range p.ChildTypes {
 		w.shared.DefineReflectType(n, typeTab[1+nameIdx(n)])
 	}
+	if p.Mod {
+		w.mod0, _ = w.shared.NewModule(modName)
+	}
+	if p.EmptyTab && len(p.ChildVals) == 0 && !p.Mod {
+		w.shared.Define("warm", 0)
+		w.shared.Delete("warm")
+	}
+	if p.SelfMod {
+		w.parent.Define(selfName, w.shared)
+	}
 	if p.Ext {
 		w.shared.SetExternalLookup(oneName{})
 	}
 	w.child = w.shared.NewEnv()
+	w.regs = make([]*env.Env, 4)
+	w.made = make([][]modRec, 4)
 	if len(p.Warm) == 3 {
 		for i := 0; i < p.Warm[0] && i < 200; i++ {
 			w.shared.Delete("warm") // a name that is never bound
@@ -507,7 +958,7 @@ func stringUsable() bool {
 	p := Prog{ChildVals: []string{"a", "c"}, ChildTypes: []string{"b"}, ParentVals: []string{"b"}}
 	w := build(p)
 	got, ok := parseString(w.shared.String())
-	_, want := apply(initState(p), Op{K: "string"})
+	_, want := apply(initState(p), Op{K: "string"}, false)
 	return ok && "str{"+got+"}" == want
 }
 
@@ -525,9 +976,58 @@ func (oneName) Type(name string) (reflect.Type, error) {
 	return nil, fmt.Errorf("undefined type '%s'", name)
 }
 
-func execOp(w world, op Op) string {
+func execOp(w world, ti int, op Op) string {
 	e := w.shared
 	switch op.K {
+	case "newmod":
+		mod, err := e.NewModule(op.N)
+		w.made[ti] = append(w.made[ti], modRec{mod, op.V})
+		return errText(err)
+	case "mget":
+		if w.regs[ti] == nil {
+			return "nomod"
+		}
+		v, err := w.regs[ti].Get(op.N)
+		if err != nil {
+			return "err"
+		}
+		return "v" + valID(v)
+	case "mtype":
+		if w.regs[ti] == nil {
+			return "nomod"
+		}
+		t, err := w.regs[ti].Type(op.N)
+		if err != nil {
+			return "err"
+		}
+		return "t" + typeID(t)
+	case "path", "cpath":
+		from := w.shared
+		if op.K == "cpath" {
+			from = w.child
+		}
+		got, err := from.GetEnvFromPath(strings.Split(op.N, "/"))
+		if err != nil {
+			return "err"
+		}
+		return "ok" + valID(got)
+	case "gdefine":
+		return errText(e.DefineGlobal(op.N, op.V))
+	case "gdefinev":
+		return errText(e.DefineGlobalValue(op.N, reflect.ValueOf(op.V)))
+	case "cgdefine":
+		return errText(w.child.DefineGlobal(op.N, op.V))
+	case "cgdefinev":
+		return errText(w.child.DefineGlobalValue(op.N, reflect.ValueOf(op.V)))
+	case "gdeftype":
+		return errText(e.DefineGlobalReflectType(op.N, typeTab[op.V]))
+	case "gdeftypei":
+		return errText(e.DefineGlobalType(op.N, reflect.Zero(typeTab[op.V]).Interface()))
+	case "cgdeftype":
+		return errText(w.child.DefineGlobalReflectType(op.N, typeTab[op.V]))
+	case "setext":
+		w.shared.SetExternalLookup(oneName{})
+		return "ok"
 	case "eget", "ceget":
 		from := w.shared
 		if op.K == "ceget" {
@@ -540,6 +1040,9 @@ func execOp(w world, op Op) string {
 		return "v" + valID(v)
 	case "cget":
 		v, err := w.child.Get(op.N)
+		if op.N == modName {
+			w.regs[ti], _ = v.(*env.Env)
+		}
 		if err != nil {
 			return "err"
 		}
@@ -567,6 +1070,9 @@ func execOp(w world, op Op) string {
 		return errText(e.Set(op.N, op.V))
 	case "get":
 		v, err := e.Get(op.N)
+		if op.N == modName {
+			w.regs[ti], _ = v.(*env.Env)
+		}
 		if err != nil {
 			return "err"
 		}
@@ -616,7 +1122,7 @@ func execOp(w world, op Op) string {
 func finalText(w world) string {
 	cv, ct := readTables(w.shared)
 	pv, pt := readTables(w.parent)
-	return fmt.Sprintf("shared{values: %s | types: %s} parent{values: %s | types: %s}", cv, ct, pv, pt)
+	return w.resolve(fmt.Sprintf("shared{values: %s | types: %s} parent{values: %s | types: %s}", cv, ct, pv, pt))
 }
 
 // ---------- sequential-consistency search ----------
@@ -631,6 +1137,7 @@ type scKey struct {
 // It returns the witness order (thread indices) when there is one.
 func explain(p Prog, results [][]string, final string) ([]int, bool) {
 	dead := map[scKey]bool{}
+	held := heldModule(p, results)
 	var order []int
 	var rec func(pos [4]int, s state) bool
 	rec = func(pos [4]int, s state) bool {
@@ -644,7 +1151,7 @@ func explain(p Prog, results [][]string, final string) ([]int, bool) {
 				continue
 			}
 			done = false
-			ns, r := apply(s, th[pos[ti]])
+			ns, r := apply(s, th[pos[ti]], held[ti][pos[ti]])
 			if r != results[ti][pos[ti]] {
 				continue
 			}
@@ -666,6 +1173,46 @@ func explain(p Prog, results [][]string, final string) ([]int, bool) {
 	return order, ok
 }
 
+// heldModule tells for every operation whether the thread's latest earlier get(m) / cget(m) recorded a
+// module as its result ("m" is bound to a module or not at all).
+func heldModule(p Prog, results [][]string) [][]bool {
+	out := make([][]bool, len(p.Threads))
+	for ti, th := range p.Threads {
+		h := false
+		for oi, op := range th {
+			out[ti] = append(out[ti], h)
+			if (op.K == "get" || op.K == "cget") && op.N == modName && ti < len(results) && oi < len(results[ti]) {
+				h = strings.HasPrefix(results[ti][oi], "v")
+			}
+		}
+	}
+	return out
+}
+
+// foreignBinding reports whether the final contents bind something that was neither there initially nor
+// written by any operation of the program (e.g. a built-in type that a lookup stored into a table).
+func foreignBinding(p Prog, final string) bool {
+	allowed := map[string]bool{}
+	for i := 1; i <= 9; i++ {
+		allowed[strconv.Itoa(i)] = true
+	}
+	for _, th := range p.Threads {
+		for _, op := range th {
+			if op.V != 0 {
+				allowed[strconv.Itoa(op.V)] = true
+			}
+		}
+	}
+	for _, m := range reBinding.FindAllStringSubmatch(final, -1) {
+		if !allowed[m[1]] {
+			return true
+		}
+	}
+	return false
+}
+
+var reBinding = regexp.MustCompile(`=([^,| }]*)`)
+
 // ---------- who touches what ----------
 
 func touches(op Op) (reads, writes []string) {
@@ -674,15 +1221,28 @@ func touches(op Op) (reads, writes []string) {
 		for _, n := range pool {
 			o = append(o, ns+n)
 		}
+		if ns == "v:" {
+			o = append(o, ns+modName)
+		} else {
+			o = append(o, ns+builtinI64)
+		}
 		return o
 	}
 	switch op.K {
-	case "define", "set", "delete", "delnear", "cset":
+	case "define", "set", "delete", "delnear", "cset", "newmod", "gdefine", "gdefinev", "cgdefine", "cgdefinev":
 		return nil, []string{"v:" + op.N}
-	case "get", "cget", "caddr":
+	case "get", "cget", "caddr", "mget":
 		return []string{"v:" + op.N}, nil
+	case "path", "cpath":
+		return []string{"v:" + modName}, nil
+	case "gdeftype", "gdeftypei", "cgdeftype":
+		return nil, []string{"t:" + op.N}
+	case "mtype":
+		return []string{"t:" + op.N}, nil
 	case "eget", "ceget":
 		return []string{"v:xe"}, nil
+	case "setext":
+		return nil, []string{"v:xe"}
 	case "deftype":
 		return nil, []string{"t:" + op.N}
 	case "type", "ctype":
@@ -759,10 +1319,111 @@ func classifyProg(p Prog, class func(string, ...interface{})) {
 	for k := range kinds {
 		class("has_op_" + k)
 	}
-	if len(p.ChildVals) == 0 {
-		class("shared_value_table_initially_absent")
+	if len(p.ChildVals) == 0 && !p.Mod {
+		if p.EmptyTab {
+			class("shared_value_table_initially_created_but_empty")
+		} else {
+			class("shared_value_table_initially_absent")
+		}
 	}
+	if p.Wide {
+		class("flavour_with_the_operations_added_after_the_sixth_round")
+	} else {
+		class("flavour_operations_of_the_first_five_rounds_only")
+	}
+	if p.ForcedPublication {
+		class("module_publication_shape_planted")
+	}
+	if p.Mod {
+		class("shared_initially_binds_a_module")
+	}
+	if p.SelfMod {
+		class("parent_binds_the_shared_scope_as_module")
+	}
+	if p.StringReplaced > 0 {
+		class("string_op_replaced_because_a_module_can_be_bound")
+	}
+	if p.GdefMoved > 0 {
+		class("define_global_moved_to_a_name_whose_presence_in_the_shared_scope_is_constant")
+	}
+	if p.PresenceDemoted > 0 {
+		class("presence_changing_ops_demoted_for_a_define_global")
+	}
+	shapeClasses(p, class)
 	if len(delnearPair(p)) > 0 {
 		class("shape_two_threads_delete_nearest_one_name_bound_in_both_scopes")
+	}
+}
+
+// shapeClasses counts the input shapes added after the sixth round.
+func shapeClasses(p Prog, class func(string, ...interface{})) {
+	newmodBy, holdBy := map[int]bool{}, map[int]bool{}
+	gdefBy, parentValBy := map[int]bool{}, map[int]bool{}
+	builtinLookup, builtinGdef, pathSelfLater, writerOnShared := false, false, false, false
+	for ti, th := range p.Threads {
+		for oi, op := range th {
+			switch op.K {
+			case "newmod":
+				newmodBy[ti] = true
+			case "mget", "mtype":
+				if oi > 0 && th[oi-1].N == modName {
+					holdBy[ti] = true
+				}
+			case "gdefine", "gdefinev", "cgdefine", "cgdefinev":
+				gdefBy[ti] = true
+				class("define_global_called_on_a_non_root_scope")
+			case "gdeftype", "gdeftypei", "cgdeftype":
+				class("define_global_type_called_on_a_non_root_scope")
+				if op.N == builtinI64 {
+					builtinGdef = true
+				}
+			case "get", "cget", "set", "cset", "delnear", "caddr":
+				if op.N != modName {
+					parentValBy[ti] = true
+				}
+			case "path", "cpath":
+				segs := strings.Split(op.N, "/")
+				class(fmt.Sprintf("path_segments_%d", len(segs)))
+				if segs[0] == selfName && len(segs) > 1 && p.SelfMod {
+					pathSelfLater = true
+				}
+			}
+			switch op.K {
+			case "type", "ctype", "mtype":
+				if op.N == builtinI64 {
+					builtinLookup = true
+				}
+			case "define", "set", "delete", "delnear", "cset", "newmod":
+				writerOnShared = true
+			}
+		}
+	}
+	for a := range newmodBy {
+		for b := range holdBy {
+			if a != b {
+				class("shape_one_thread_makes_a_module_another_fetches_it_and_reads_through_it")
+				break
+			}
+		}
+	}
+	for a := range gdefBy {
+		for b := range parentValBy {
+			if a != b {
+				class("shape_define_global_from_below_while_another_thread_may_reach_the_root_table")
+				break
+			}
+		}
+	}
+	if builtinLookup {
+		class("shape_lookup_of_a_builtin_type_name")
+		if builtinGdef {
+			class("shape_builtin_type_name_looked_up_and_defined_globally")
+		}
+	}
+	if pathSelfLater {
+		class("shape_path_continues_in_the_shared_scopes_own_table")
+		if writerOnShared {
+			class("shape_path_through_the_shared_scope_and_a_writer_of_it")
+		}
 	}
 }
